@@ -907,6 +907,125 @@ func runChain(run *vk.Run, srv *vsrv.Server, batch uint64, idx int) {
 	}
 }
 
+// runUnpresentRace is a directed scenario for "a publisher that loses the right to present:
+// every subscriber that was offered its streams is sent a close".  While an operator takes
+// 'present' away from the publisher, the publisher's own messages are in flight: a fresh
+// offer (slow to handle, so that what follows queues up behind it) and an offer that
+// REPLACES its live stream, sent back to back.  Whatever order the server handles them in,
+// at quiescence nobody may hold any of the three streams.
+func runUnpresentRace(run *vk.Run, srv *vsrv.Server, batch uint64, idx int) {
+	r := run.Rand(4, batch, uint64(idx))
+	sc := &scen{run: run, srv: srv, batch: batch, idx: 2000 + idx, streams: map[string]*stream{}}
+	g := fmt.Sprintf("gu%d-%d", batch, idx)
+	sc.groups = []string{g}
+	srv.WriteGroup(g, map[string]any{"users": map[string]any{
+		"op1":   map[string]any{"password": "pw-op1", "permissions": "op"},
+		"pres1": map[string]any{"password": "pw-pres1", "permissions": "present"},
+		"pres2": map[string]any{"password": "pw-pres2", "permissions": "present"},
+		"obs1":  map[string]any{"password": "pw-obs1", "permissions": "observe"},
+	}})
+	for i, user := range []string{"pres1", "pres2", "obs1", "op1"} {
+		c := sc.newClient(r, i)
+		sc.clients = append(sc.clients, c)
+		if !sc.connect(c, 0) {
+			return
+		}
+		sc.note(fmt.Sprintf("%s joins %s as %s", c.name, g, user))
+		if m, ok := c.c.Join(g, user, "pw-"+user); !ok || m.Str("kind") != "join" {
+			run.Undecided(fmt.Sprintf("join of %s failed: %v", c.name, m))
+			sc.bad = true
+			break
+		}
+		c.joined, c.group, c.user, c.present, c.isOp = true, g, user, user != "obs1", user == "op1"
+		if i == 1 || i == 2 {
+			kinds := []string{"audio", "video"}
+			c.request = map[string][]string{"": kinds}
+			sc.note(fmt.Sprintf("%s request %v", c.name, c.request))
+			c.c.Send(vclient.Msg{"type": "request", "request": map[string]any{"": kinds}})
+		}
+	}
+	if sc.bad {
+		return
+	}
+	pub, op := sc.clients[0], sc.clients[3]
+	defer func() {
+		for _, u := range sc.streams {
+			if u.live {
+				u.live = false
+				close(u.stop)
+			}
+		}
+		for _, c := range sc.clients {
+			if c.p != nil {
+				c.p.Shutdown()
+			}
+			if c.c != nil {
+				c.c.Close()
+			}
+		}
+	}()
+	for round := 0; round < 6 && !sc.bad; round++ {
+		sc.publish(pub, r, "")
+		if sc.bad {
+			return
+		}
+		sc.check()
+		var cur string
+		for id, u := range sc.streams {
+			if u.pub == pub && u.live {
+				cur = id
+			}
+		}
+		if cur == "" || sc.bad {
+			return
+		}
+		// prepare the two offers, keep the messages back
+		pub.p.HoldOffers(true)
+		tracks := []vrtc.TrackSpec{{Kind: "audio", ID: "a0"}, {Kind: "video", ID: "v0"}}
+		var ups []*vrtc.Up
+		for k, replace := range []string{"", "", cur} {
+			sc.nstream++
+			id := fmt.Sprintf("%s-st%d", pub.id, sc.nstream)
+			up, err := pub.p.Publish(id, sc.streams[cur].label, tracks, replace)
+			if err != nil {
+				run.Undecided("publish: " + err.Error())
+				sc.bad = true
+				pub.p.HoldOffers(false)
+				return
+			}
+			ups = append(ups, up)
+			sc.streams[id] = &stream{id: id, label: sc.streams[cur].label, pub: pub, up: up, stop: make(chan struct{}), tracks: tracks, why: "offered while the publisher was losing 'present'"}
+			_ = k
+		}
+		pub.p.HoldOffers(false)
+		old := sc.streams[cur]
+		old.live, old.why = false, "the publisher lost 'present'"
+		close(old.stop)
+		sc.note(fmt.Sprintf("%s unpresents %s while %s sends a fresh offer and an offer replacing %s back to back", op.name, pub.name, pub.name, cur))
+		op.c.Send(vclient.Msg{"type": "useraction", "kind": "unpresent", "source": op.id, "dest": pub.id})
+		if r.IntN(2) == 0 {
+			time.Sleep(time.Duration(r.IntN(400)) * time.Microsecond)
+		}
+		pub.p.SendHeld()
+		pub.present = false
+		run.Count("unpresent_races", 1)
+		run.Eval(1)
+		sc.check()
+		for _, up := range ups {
+			up.Close()
+		}
+		// granted again for the next round
+		op.c.Send(vclient.Msg{"type": "useraction", "kind": "present", "source": op.id, "dest": pub.id})
+		pub.present = true
+		if !sc.quiesce() {
+			return
+		}
+	}
+	if !sc.bad {
+		run.Count("unpresent_race_scenarios", 1)
+	}
+}
+
 func child() {
 	run := vk.Start("C07")
 	var a batchArgs
@@ -929,6 +1048,13 @@ func child() {
 		go func(i int) {
 			defer wg.Done()
 			runChain(run, srv, a.Index, i)
+		}(i)
+	}
+	for i := 0; i < 3; i++ {
+		wg.Add(1)
+		go func(i int) {
+			defer wg.Done()
+			runUnpresentRace(run, srv, a.Index, i)
 		}(i)
 	}
 	wg.Wait()
@@ -982,6 +1108,7 @@ func main() {
 	run.FloorCounter("absent_streams_verified", 30)
 	run.FloorCounter("streams_published", 8)
 	run.FloorCounter("streams_replaced_twice_within_push_delay", 6)
+	run.FloorCounter("unpresent_races", 18)
 	run.Assume("quiescence: three ping/pong barrier rounds 130 ms apart without any message (covers galene's 200 ms push delay); watchdog 40 s => inconclusive")
 	run.Assume("the publisher sends the first packets of its tracks one track after the other, so the order in which the server learns the tracks ('first'/'last' video track) is known")
 	run.Assume("per-stream requests and aborts are modelled as lasting while the down stream exists / until the subscriber's next request, which is when galene pushes streams again")
